@@ -36,7 +36,7 @@ def plan(tier, seed):
         cases.append(dict(lane='planted', aligner='greedy', metric=pick(['cos', 'euclidean']), K=int(rng.integers(2, 5)),
                           F=int(pick([9, 17, 33, 65, 129, 257, 513] + ([257, 513] if big else []))), T=int(rng.integers(8, 60)), rs=[seed, 17, i])); i += 1     # (the whole stated range of F in both tiers: the adjacent-bin chain is cheap)
     for r in range(n):
-        which = pick(['default512', 'custom', 'custom', 'custom']) if not (tier == 'thorough' and r % 15 == 0) else 'default1024'
+        which = pick(['default512', 'custom', 'custom', 'custom']) if r % 15 != 7 else 'default1024'
         F = {'default512': 257, 'default1024': 513}.get(which, int(pick([9, 17, 33, 65, 129])))
         cases.append(dict(lane='planted', aligner='dhtv', plan=which, metric=pick(['cos', 'cos', 'euclidean']), K=int(rng.integers(2, 5)), F=F, T=int(rng.integers(8, 40)),
                           rs=[seed, 18, i])); i += 1
@@ -154,6 +154,18 @@ def run_planted(case, R):
         base = rng.permutation(K)
         seg = np.arange(s0, s0 + w0)
         major = rng.permutation(seg)[:int(np.ceil(0.7 * w0))]
+        fk = case['rs'][-1] % 3
+        if fk == 1 and K >= 2:
+            # the coherent adversary: every bin outside the majority shares one OTHER order (they out-vote the aligned band wherever a
+            # segment overlaps it by too little)
+            other = base[(np.arange(K) + 1 + int(rng.integers(K - 1))) % K]
+            field[:] = other[:, None]
+        elif fk == 2 and K >= 2:
+            # two coherent bands with different orders below and above a random bin
+            cut = int(rng.integers(1, F - 1))
+            field[:, :cut] = rng.permutation(K)[:, None]
+            field[:, cut:] = rng.permutation(K)[:, None]
+        info['field'] = ['random', 'coherent-other', 'two-bands'][fk]
         field[:, major] = base[:, None]
     mask = pa.apply_mapping(ref, field)
     try:
@@ -294,6 +306,10 @@ def run_transcription(case, R):
         mask = rng.standard_normal((K, F, T))                       # "all real masks": entries of both signs (centred features)
     elif case['rs'][-1] % 7 == 2:
         mask = mask * (1e9 if not single else 1e4)                   # large magnitudes (un-normalised power-like features)
+    elif case['rs'][-1] % 7 == 3:
+        # activity patterns that already have unit norm over time (features normalised by an earlier stage): "nothing to normalise"
+        # shortcuts hand the caller's own array on to code that reorders its working copy
+        mask = mask / np.linalg.norm(mask, axis=-1, keepdims=True)
     if single:
         mask = mask.astype(np.float32)
     before = mask.copy()
